@@ -103,6 +103,8 @@ def audit(t, db, model, rnd, ctx, ref=None):
         got = cut(t.get, k)
         if got != model.get(k):
             raise Violation("bin-lookup", "get(%s)=%r, model says %r" % (hx(k), got, model.get(k)))
+        if got is not None and not isinstance(got, bytes):
+            raise Violation("bin-lookup", "get(%s) returned a %s, not a byte string" % (hx(k), type(got).__name__))
         if cut(t.exists, k) is not (k in model) or cut(t.__contains__, k) is not (k in model):
             raise Violation("bin-lookup", "exists(%s) disagrees with the model (%r)" % (hx(k), k in model))
         if cut(t.__getitem__, k) != model.get(k):
